@@ -181,6 +181,8 @@ def g_type(rng, depth, cfg=None, top=True):
         'enum': 0.7, 'class': 1.6, 'cond': 1.3, 'tagged': 0.7, 'struct': 0.5 if top else 0.0, 'std': 0.0,
     }
     kinds.update(w)
+    if not top:
+        kinds['struct'] = 0
     if depth <= 0:
         for k in ('seq', 'tuple', 'dict', 'union', 'class', 'cond', 'tagged', 'struct'):
             kinds[k] = 0
